@@ -115,7 +115,7 @@ class _Pool:
         return lambda: objs.setdefault(name, cls())
 
 
-def call(rng, kind, n, ncols, frame, window=None, seed=0, pool=None, style=None):
+def call(rng, kind, n, ncols, frame, window=None, seed=0, pool=None, style=None, target=None):
     from menelaus import injection as I0
     I = pool if pool is not None else _Pool(I0, False)
     data, names = make_data(rng, n, ncols, frame, style=style)
@@ -127,6 +127,8 @@ def call(rng, kind, n, ncols, frame, window=None, seed=0, pool=None, style=None)
     def upos():
         """a column position whose label is unique in the frame (an injector is pointed at one column; the OTHER columns may share labels)"""
         ok = [k for k in range(1, ncols + 1) if list(map(str, names)).count(str(names[k - 1])) == 1] if frame else list(range(1, ncols + 1))
+        if target in ok:
+            return target                 # (the caller of this driver asks for a particular column, e.g. the integer-typed one of a mixed frame)
         return rng.choice(ok)
     if kind == "swap":
         c1, c2 = upos(), upos()
@@ -136,6 +138,8 @@ def call(rng, kind, n, ncols, frame, window=None, seed=0, pool=None, style=None)
     elif kind == "labelswap":
         pres = sorted(set(np.asarray(data.drop(columns=NOTE) if isinstance(data, pd.DataFrame) and NOTE in data.columns else data, dtype=float)[:, ycol - 1].tolist()))
         k1, k2 = rng.choice(pres + [pres[-1] + 3.0]), rng.choice(pres)          # (sometimes a class that does not occur)
+        if len(pres) >= 2 and (t <= f or rng.random() < 0.5):
+            k1, k2 = rng.sample(pres, 2)                                        # two different classes that both occur (always so for an empty window: it must stay a no-op)
         out = I.LabelSwapInjector()(data, f, t, colarg(frame, names, ycol), k1, k2)
         e = base_event(kind, data, out, before)
         e.update(c1=ycol, k1=num(k1), k2=num(k2))
